@@ -71,4 +71,19 @@ theorem gen_diy_shift (y k : Int) : Gen.days_in_year (y + 400 * k) = Gen.days_in
   have h400 : (y + 400 * k) % 400 = y % 400 := by omega
   rw [h4, h100, h400]
 
+/-- periodicity of the generated `is_leap`, proved by rewriting the residues (independent of how the boolean
+    expression is arranged in the source) -/
+theorem gen_leap_shift (y k : Int) : Gen.is_leap (y + 400 * k) = Gen.is_leap y := by
+  unfold Gen.is_leap
+  have h4 : (y + 400 * k) % 4 = y % 4 := by omega
+  have h100 : (y + 400 * k) % 100 = y % 100 := by omega
+  have h400 : (y + 400 * k) % 400 = y % 400 := by omega
+  simp only [h4, h100, h400]
+
+def leapCycle : Bool := (List.range 400).all fun r =>
+  let y : Int := (r : Int) + 400
+  Gen.is_leap y == isLeap y
+
+theorem leapCycle_true : leapCycle = true := by decide +kernel
+
 end Pendulum.C15
